@@ -10,6 +10,7 @@ pub mod c12;
 pub mod c13;
 pub mod c14;
 pub mod c15;
+pub mod c16;
 pub mod c17;
 pub mod c18;
 pub mod fmt_common;
@@ -17,7 +18,7 @@ pub mod lsp;
 pub mod run_common;
 
 pub fn all() -> Vec<&'static dyn Prop> {
-  vec![&behav::C01, &behav::C03, &behav::C04, &c05::C05, &c06::C06, &c07::C07, &c08::C08, &c09::C09, &c12::C12, &c13::C13, &c14::C14, &c15::C15, &c17::C17, &c18::C18, &lsp::C10, &lsp::C11]
+  vec![&behav::C01, &behav::C03, &behav::C04, &c05::C05, &c06::C06, &c07::C07, &c08::C08, &c09::C09, &c12::C12, &c13::C13, &c14::C14, &c15::C15, &c16::C16, &c17::C17, &c18::C18, &lsp::C10, &lsp::C11]
 }
 
 pub fn by_id(id: &str) -> Option<&'static dyn Prop> {
